@@ -124,7 +124,7 @@ def main(argv):
         t0 = time.time()
         tot = runner.batch(ex, spec, a.tier, seed, a.hunt, only_stratum=a.stratum, mutant=mutant,
                            max_viol=2)
-        ex.shutdown()
+        runner.close_pool(ex)
         print(f'runs {tot["n"]} wall {time.time() - t0:.1f}s distinct {len(tot["digests"])} '
               f'nontrivial {tot["nontrivial"]} simtime {tot["sim_time"]:.0f} steps {tot["steps"]}')
         print('strata', dict(tot['strata']))
